@@ -15,7 +15,7 @@ PARAM_SHAPES = ('none', 'tuple0', 'list0', 'dict0', 'list1', 'list2', 'tuple1', 
 ID_SHAPES = ('none', 'int', 'str')
 RESULT_KINDS = ('null', 'bool', 'int', 'float', 'str', 'list0', 'list1', 'dict0', 'dict1')
 DATA_KINDS = ('absent',) + RESULT_KINDS
-ERR_SHAPES = ('generic', 'typed_default', 'typed_msg', 'typed_code', 'custom')
+ERR_SHAPES = ('generic', 'typed_default', 'typed_msg', 'typed_code', 'custom', 'custom_zero')
 
 MANIFEST = dict(
     text="Symbolic round-trip check of the real to_json / JSONEncoder.default / from_json code: messages are constructed from concrete shapes (params / id / result / error / batch composition) "
@@ -27,7 +27,7 @@ MANIFEST = dict(
          "Payload nesting depth 1, batches <= 2 (quick) / 3 (thorough).",
 )
 BOUNDS = {
-    'quick': {'request': '9 params shapes x 3 id shapes, symbolic method/id/leaves', 'response': '9 result kinds x 3 id shapes; errors: 5 constructions x 10 data kinds x 2 base classes',
+    'quick': {'request': '9 params shapes x 3 id shapes, symbolic method/id/leaves', 'response': '9 result kinds x 3 id shapes; errors: 6 constructions (incl. user classes registered for codes 0, -7, 2001) x 10 data kinds x 2 base classes',
               'batch': '0..2 elements over {call int id, call str id (len<=2), notification} / {ok, error, null id}; batch-level error'},
     'thorough': {'request': 'as quick', 'response': 'as quick', 'batch': '0..3 elements'},
 }
@@ -50,8 +50,18 @@ def setup():
         class VerifBase(pjrpc.exc.JsonRpcError):
             pass
 
+        class VerifZeroError(pjrpc.exc.JsonRpcError):      # a user error class with the falsy code 0
+            code = 0
+            message = 'zero'
+
+        class VerifNegError(pjrpc.exc.ClientError):
+            code = -7
+            message = 'neg'
+
         globals()['VerifCustomError'] = VerifCustomError
         globals()['VerifBase'] = VerifBase
+        globals()['VerifZeroError'] = VerifZeroError
+        globals()['VerifNegError'] = VerifNegError
 
 
 def obligations(tier):
@@ -235,6 +245,9 @@ def _mk_error(env, shape, data_kind):
         code = env.int('code')
         e = pjrpc.exc.ServerError(code=code, **kw)
         msg = 'Server error'
+    elif shape == 'custom_zero':
+        e = VerifZeroError(**kw)  # noqa: F821
+        code, msg = 0, 'zero'
     else:
         e = VerifCustomError(**kw)  # noqa: F821
         code, msg = 2001, 'custom error'
@@ -259,8 +272,7 @@ def _check_error_wire(we, code, msg, data, data_kind):
 def _check_error_back(e2, code, msg, data, data_kind, base):
     import pjrpc
     from pjrpc.common import UNSET
-    reg = type(pjrpc.exc.JsonRpcError).__errors_mapping__
-    want_cls = reg.get(code, base)
+    want_cls = _ref_classes().get(code, base)      # independent of the library's own code -> class registry
     if type(e2) is not want_cls:
         raise Violation('error-class', (code, type(e2).__name__, want_cls.__name__))
     if not same_json(e2.code, code) or not same_json(e2.message, msg):
@@ -269,6 +281,15 @@ def _check_error_back(e2, code, msg, data, data_kind, base):
         raise Violation('error-data-presence-lost', (e2, data_kind))
     if data_kind != 'absent' and not same_json(e2.data, data):
         raise Violation('error-data-lost', (e2, data))
+
+
+def _ref_classes():
+    import pjrpc
+    x = pjrpc.exc
+    pairs = [(-32700, x.ParseError), (-32600, x.InvalidRequestError), (-32601, x.MethodNotFoundError),
+             (-32602, x.InvalidParamsError), (-32603, x.InternalError), (-32000, x.ServerError),
+             (2001, VerifCustomError), (0, VerifZeroError), (-7, VerifNegError)]  # noqa: F821
+    return {k: v for k, v in pairs}
 
 
 def _base(name):
